@@ -37,6 +37,7 @@ type Profile struct {
 	OddBasePaths  bool // base paths without leading slash, with trailing slash, "/"
 	DefaultPaths  bool // methods without config / without path (defaulted path)
 	Headers       bool
+	HeaderHeavy   bool // always declare service and (usually) method headers
 	RepeatedQuery bool // query annotation on repeated scalars
 	QueryOnBody   bool // query annotations on body-verb requests
 	SharedRequest bool // methods may share request/response messages
@@ -50,8 +51,9 @@ type Profile struct {
 	AnnotateAnyCard bool // annotations on optional/repeated/map/oneof-member fields where the validators accept them
 	MultiWordChild  bool // multi-word field names in flatten children / flattened variants
 
-	Rules    bool // buf.validate rules
-	Examples bool // field_examples
+	ErrorMessages bool // top-level messages named *Error (custom error types)
+	Rules         bool // buf.validate rules
+	Examples      bool // field_examples
 
 	HostileNames bool // identifier-hostile names
 	LongNames    bool
@@ -123,6 +125,7 @@ type gen struct {
 	feature   map[string]string // fq message name -> MarshalJSON-generating feature it carries ("" if none)
 	usedShort map[string]bool   // short type names in use (TS/OpenAPI use short names)
 
+	ruled         map[string]bool // messages that already carry rules
 	firstSeg      map[string]bool // "VERB segment" literal first segments in use (schema-wide)
 	allowVarFirst bool            // the schema has a single route: a variable may be the first segment
 }
@@ -161,6 +164,23 @@ func Generate(t *rapid.T, p *Profile, id string) *Schema {
 	}
 	for i := 0; i < nd; i++ {
 		g.newDataMessage(main, 0)
+	}
+	if p.ErrorMessages {
+		for _, n := range []string{"NotFoundError", "QuotaError"} {
+			if g.usedShort[n] || (n == "QuotaError" && g.bool("oneerr")) {
+				continue
+			}
+			g.usedShort[n] = true
+			em := &Message{Name: n}
+			ec := &fieldCtx{used: map[string]bool{}, multiOK: true, noMsg: true}
+			em.Fields = append(em.Fields, &Field{Name: "resource_type", Number: g.nextNum(ec), Kind: KString, Card: Singular})
+			for i, k := 0, g.intn(0, 3, "nerrf"); i < k; i++ {
+				em.Fields = append(em.Fields, g.plainField(ec))
+			}
+			main.Messages = append(main.Messages, em)
+			g.msgDefs[g.s.Pkg+"."+n] = em
+			g.tagf("custom_error")
+		}
 	}
 	ns := 1
 	if p.MaxServices > 1 {
@@ -764,7 +784,7 @@ func (g *gen) newService(f *File, usedSvc map[string]bool, only bool) {
 		s.BasePath = pick(g, choices, "basepathv")
 		g.tagf("base_path")
 	}
-	if p.Headers && g.oneIn(2, "svcheaders") {
+	if p.Headers && (p.HeaderHeavy && !g.oneIn(5, "nosvcheaders") || !p.HeaderHeavy && g.oneIn(2, "svcheaders")) {
 		s.Headers = g.headers(nil)
 	}
 	nm := 1
@@ -782,7 +802,7 @@ func (g *gen) newService(f *File, usedSvc map[string]bool, only bool) {
 		}
 		usedM[mname] = true
 		m := &Method{Name: mname}
-		if p.Headers && g.oneIn(3, "mheaders") {
+		if p.Headers && (p.HeaderHeavy && !g.oneIn(3, "nomheaders") || !p.HeaderHeavy && g.oneIn(3, "mheaders")) {
 			m.Headers = g.headers(s.Headers)
 		}
 		if p.SharedRequest && prevReq != "" && g.oneIn(4, "sharereq") {
@@ -985,6 +1005,17 @@ func (g *gen) buildMethod(f *File, s *Service, m *Method, usedRoutes map[string]
 	}
 	if p.Rules {
 		g.addRules(req)
+		// rules on messages the request refers to: nested / repeated / map field paths
+		for _, fl := range req.Fields {
+			if fl.Kind == KMessage && g.msgDefs[fl.TypeRef] != nil && !g.ruled[fl.TypeRef] {
+				if g.ruled == nil {
+					g.ruled = map[string]bool{}
+				}
+				g.ruled[fl.TypeRef] = true
+				g.addRules(g.msgDefs[fl.TypeRef])
+				g.tagf("rules:nested:%s", fl.Card)
+			}
+		}
 	}
 	if p.Examples {
 		g.addExamples(resp)
